@@ -187,21 +187,36 @@ def run_expr(db, expr_builder, cache=True, context=None):
 
 
 def expected(spec, ctx):
+    """the set of admissible outcomes ({("val", frozen value) | ("err", message)}), or None when it is too large to
+    enumerate (then only the kind of outcome is checked for that program; every other check still runs)"""
     from harness.progs import vm_c38
-    from harness.progs.ref import Raised
     try:
-        return ("val", vm_c38.ref_eval38(spec, ctx))
-    except Raised as r:
-        return ("err", r.msgs)
+        return vm_c38.ref_outcomes(spec, ctx)
+    except vm_c38.TooManyOutcomes:
+        return None
+
+
+def outcome_of(out):
+    from harness.progs import vm_c38
+    if "result" in out:
+        return ("val", vm_c38.freeze(out["result"]))
+    if "error" in out and out["error"][0] == "ValueError":
+        return ("err", out["error"][1])
+    return None
 
 
 def agrees(out, exp):
-    if "result" in out:
-        return exp[0] == "val" and norm(exp[1]) == norm(out["result"])
-    if "error" in out:
-        return exp[0] == "err" and out["error"][0] == "ValueError" and \
-            (out["error"][1] in exp[1] or "<one of several>" in exp[1])
-    return False
+    o = outcome_of(out)
+    if o is None:
+        return False            # an error that no program of the language raises (infrastructure, protocol, ...)
+    return True if exp is None else o in exp
+
+
+def show_exp(exp):
+    if exp is None:
+        return "(too many admissible outcomes to list)"
+    l = sorted(exp, key=repr)
+    return repr(l[0][1]) if len(l) == 1 and l[0][0] == "val" else "one of " + repr(l)[:400]
 
 
 def is_infra(out):
@@ -836,7 +851,8 @@ class Check(PropertyCheck):
                 self.count(repr(spec) if spec_size(spec) >= 3 else None, len(caches))
                 if not isinstance(plan[i], tuple):
                     self.stat("programs", "process executor" if proc else "thread executor")
-                self.stat("expected", exp[0])
+                self.stat("expected", "too many to enumerate" if exp is None else
+                          ("ambiguous (%d admissible outcomes)" % len(exp) if len(exp) > 1 else next(iter(exp))[0]))
                 for nd in nodes:
                     p = dict(nd[2])
                     self.stat("subrun new_execution", p.get("new_execution"))
@@ -930,7 +946,7 @@ class Check(PropertyCheck):
         nb = 0
         for key, (spec, out) in getattr(self, "lock_hits", {}).items():
             self.findings.append(Finding(key, f"subrun on the forwarded sqlite backend fails with {out.get('error', out)!r:.160}; "
-                                              f"direct evaluation gives {expected(spec, None)[1]!r}",
+                                              f"direct evaluation gives {show_exp(expected(spec, None))}",
                                          {"kind": "witness", "key": key, "spec": repr(spec)}))
         for rec in getattr(self, "runs", []):
             spec = rec["spec"]
@@ -956,14 +972,14 @@ class Check(PropertyCheck):
                     pre = "sqlite-lock" if is_lock(out) else "result-differs"
                     self.findings.append(Finding(f"{pre}:{spec!r}"[:200],
                                                  f"run {k + 1} (cache={rec['caches'][k]}): got {out.get('result', out.get('error'))!r:.200}, "
-                                                 f"reference {rec['exp'][1]!r:.200}", rp))
+                                                 f"reference {show_exp(rec['exp']):.300}", rp))
                     break
             d = rec.get("direct")
             if d is not None and rec["outs"] and not is_infra(rec["outs"][0]):
                 o = rec["outs"][0]
-                same = ("result" in d and "result" in o and norm(d["result"]) == norm(o["result"])) or \
-                       ("error" in d and "error" in o and d["error"][0] == o["error"][0] and
-                        (d["error"][1] == o["error"][1] or (agrees(d, rec["exp"]) and agrees(o, rec["exp"]))))
+                # equal outcomes, or two of the admissible outcomes of a program whose outcome depends on the schedule
+                same = (outcome_of(d) is not None and outcome_of(d) == outcome_of(o)) or \
+                       (agrees(d, rec["exp"]) and agrees(o, rec["exp"]))
                 self.evaluations += 1
                 self.stat("direct evaluation compared", "same" if same else "different")
                 if not same:
@@ -1029,7 +1045,7 @@ class Check(PropertyCheck):
                             outs.append(out)
                     for k, out in enumerate(outs):
                         if not agrees(out, exp):
-                            print(f"replay: run {k + 1} (cache={caches[k]}) gives {out!r:.300}; the reference (direct evaluation) gives {exp[1]!r:.300}")
+                            print(f"replay: run {k + 1} (cache={caches[k]}) gives {out!r:.300}; the reference (direct evaluation) gives {show_exp(exp):.300}")
                             return 1
                     bad = row_invariants(str(db), spec, len(caches)) if db.exists() else []
                     if bad:
